@@ -208,6 +208,18 @@ def run_C06(ctx):
         # a third of the cases: colliding element names; half: look-ups read / network validated in the
         # middle of the construction (the verdict must not depend on names or on earlier validations)
         names = {}
+        if ci % 3 == 1:
+            # names are free text: braces, percent signs, quotes, blanks (as in "N_{3}", "exit 100%", "D'1")
+            odd = ["N_{%d}", "{%d}", "exit %d 100%%", "D'%d\"", "{}%d", "{0}{1}%d", "a b\t%d"]
+            nodes_, _e = net.graph()
+            for (n_, _o, _d) in nodes_:
+                names[("n", n_)] = odd[(ci + n_) % len(odd)] % n_
+            for l in net.links:
+                names[("l", l)] = odd[(ci + l + 1) % len(odd)] % l
+            for o in net.origins:
+                names[("o", o)] = odd[(ci + o + 2) % len(odd)] % o
+            for d in net.dests:
+                names[("d", d)] = odd[(ci + d + 3) % len(odd)] % d
         if ci % 3 == 0:
             for l in net.links:
                 names[("l", l)] = "same"
